@@ -34,7 +34,7 @@ def mergeFracOfPruning (f : Pruning.Frac) : Merge.Frac :=
 theorem cons_fracrange_info_roundtrip (f : Merge.Frac) (ct : Nat) (d : Option Dist) :
     mergeFracOfInfo (infoOfMergeFrac ct d f) f.docs = f := rfl
 
-theorem cons_fracrange_info_roundtrip' (s : Info) (docs : List Nat) :
+theorem cons_fracrange_info_roundtrip_inv (s : Info) (docs : List Nat) :
     infoOfMergeFrac s.creationTime s.dist (mergeFracOfInfo s docs) = s := rfl
 
 /-! ## `Info.IsIntersecting` -/
@@ -95,7 +95,7 @@ theorem cons_fracrange_c14_isIntersectingOld_eq_c05_nodist (s : Info) (hd : s.di
 
 /-- the panicking variant used by the C14 driver agrees with the total one whenever the distribution is well-formed
 (`Dist.WF`: what `Dist.new` / `add` / `unmarshal?` produce).  Two definitions of the same Go function in one file. -/
-theorem cons_fracrange_isIntersecting?_eq_isIntersecting (s : Info) (hwf : ∀ d, s.dist = some d → Dist.WF d) (qf qt : Nat) :
+theorem cons_fracrange_isIntersectingOpt_eq_isIntersecting (s : Info) (hwf : ∀ d, s.dist = some d → Dist.WF d) (qf qt : Nat) :
     FracInfo.isIntersecting? s qf qt = some (FracInfo.isIntersecting s qf qt) := by
   unfold FracInfo.isIntersecting? FracInfo.isIntersecting
   by_cases h0 : s.docsTotal = 0
